@@ -1186,7 +1186,10 @@ theorem rank_pipeline {lower : Bytes → Bytes} {cv : Conv} {env : Env V T D S W
       (rq.sort = [] → rows0.map (fun x => (x.id, x.hybrid)) =
         (C06.backfill (rsearchIndex lower cv env orc rs q)).map (fun e => (e.id, e.hybrid))) ∧
       (rq.sort = [] → q.isComposite = true → rows0.Pairwise (fun a b => C06.rankRel le a.hybrid b.hybrid)) ∧
-      (rq.sort ≠ [] → rows0.Pairwise (fun a b => C06.sortCmp rq.sort a.data b.data ≤ 0)) := by
+      (rq.sort ≠ [] → rows0.Pairwise (fun a b => C06.sortCmp rq.sort a.data b.data ≤ 0)) ∧
+      (rows0.map (fun x => (x.id, x.hybrid))).Perm
+        ((C06.backfill (rsearchIndex lower cv env orc rs q)).map (fun e => (e.id, e.hybrid))) ∧
+      (rq.sort = [] → rows0.Pairwise (fun a b => a.hybrid = none → b.hybrid = none ∧ a.id < b.id)) := by
   have hp := hI.store.pts
   obtain ⟨hwfT, hlive⟩ := tree_good lower cv env orc rs q hgood
   obtain ⟨rows0, hfull, hnd, hmem, hrow, hnosort, hrank, hsorted⟩ :=
@@ -1200,7 +1203,7 @@ theorem rank_pipeline {lower : Bytes → Bytes} {cv : Conv} {env : Env V T D S W
     intro row hrw
     obtain ⟨u, hu⟩ := hlive row.id ((hmem row.id).1 (List.mem_map.2 ⟨row, hrw, rfl⟩))
     rw [hu, uuidAt_of hu]
-  obtain ⟨unranked, hB, _, _, hBmem, _⟩ := C06.C06_backfill _ w2 w1
+  obtain ⟨unranked, hB, hasc, _, hBmem, _⟩ := C06.C06_backfill _ w2 w1
   have hget : ∃ l, C01.getAll rs.base.shard.pts ((C06.backfill (rsearchIndex lower cv env orc rs q)).map (·.id)) = .ok l := by
     refine ⟨_, C01.getAll_eq rs.base.shard.pts _ ?_⟩
     intro n hn
@@ -1219,7 +1222,7 @@ theorem rank_pipeline {lower : Bytes → Bytes} {cv : Conv} {env : Env V T D S W
   have hpage := C06.C06_search_page (selAt cv rs.base) orc.rowSort _ rq rows0 hfull off lim ho hl hoff hlim hlen
   have hcomp : q.isComposite = true → (rtree lower cv env orc rs q).isComposite = true := by
     cases q <;> simp [RQuery.isComposite, rtree, C06.QTree.isComposite]
-  refine ⟨rows0, ?_, hrowlive, ?_, hnd, hmem, hrow, ?_, fun h1 h2 => hrank h1 (hcomp h2), hsorted⟩
+  refine ⟨rows0, ?_, hrowlive, ?_, hnd, hmem, hrow, ?_, fun h1 h2 => hrank h1 (hcomp h2), hsorted, ?_, ?_⟩
   · unfold rsearchPoints
     simp only [hwf, hne, Bool.not_true, Bool.false_eq_true, if_false, hgl]
     rw [hr]
@@ -1251,6 +1254,45 @@ theorem rank_pipeline {lower : Bytes → Bytes} {cv : Conv} {env : Env V T D S W
     have k2 := (hp.bij _ _).mpr h2
     rw [k1] at k2; exact Option.some.inj k2
   · intro hs; rw [hr]; exact hnosort hs
+  · -- sorted or not, the rows are the back-filled entries
+    rw [hr]
+    have hf := hfull
+    unfold C06.fullRows at hf
+    cases hm : C06.mapExcept (fun (e : C06.Entry S) =>
+        (C06.shape rq (selAt cv rs.base e.id)).map (fun d => (⟨e.id, e.hybrid, d⟩ : C06.Row S)))
+        (C06.backfill (C06.evalTree env.hadd orc.hsort orc.hstable (rtree lower cv env orc rs q))) with
+    | error e => simp [hm] at hf
+    | ok rows' =>
+      simp only [hm, Except.ok.injEq] at hf
+      have hpairs := C06.mapExcept_map _ (fun (e : C06.Entry S) => (e.id, e.hybrid)) (fun (x : C06.Row S) => (x.id, x.hybrid))
+        (fun e row he => by
+          obtain ⟨h1, h2, _⟩ := C06.row_of_entry _ rq e row he
+          show (row.id, row.hybrid) = (e.id, e.hybrid)
+          rw [h1, h2]) _ rows' hm
+      rw [← hf, ← hpairs]
+      split
+      · exact List.Perm.refl _
+      · exact (hok.row_perm rows').map _
+  · -- unsorted: after a filter-only row only filter-only rows follow, ascending node id
+    intro hs
+    have h1 := hnosort hs
+    have h2 : ((C06.backfill (C06.evalTree env.hadd orc.hsort orc.hstable (rtree lower cv env orc rs q))).map
+        (fun e => (e.id, e.hybrid))).Pairwise (fun a b => a.2 = none → b.2 = none ∧ a.1 < b.1) := by
+      rw [hB, List.map_append, List.pairwise_append]
+      refine ⟨?_, ?_, ?_⟩
+      · refine (pairwise_true _).imp_of_mem ?_
+        intro a b ha _ _ hnone
+        simp only [List.map_map, List.mem_map, Function.comp_def] at ha
+        obtain ⟨x, _, rfl⟩ := ha
+        cases hnone
+      · simp only [List.map_map, Function.comp_def, List.pairwise_map]
+        exact hasc.imp (fun h _ => ⟨trivial, h⟩)
+      · intro a ha b _ hnone
+        simp only [List.map_map, List.mem_map, Function.comp_def] at ha
+        obtain ⟨x, _, rfl⟩ := ha
+        cases hnone
+    rw [← h1, List.pairwise_map] at h2
+    exact h2
 
 end pipeline
 
@@ -1259,29 +1301,127 @@ end pipeline
 section leafref
 variable [DecidableEq T] [LinearOrder D]
 
-/-- the answer of the index of a leaf, read on uuids, is an answer of the reference map:
+/-- the answer of the index of a leaf, read on uuids, is an answer of the reference map `coll`:
 a filter leaf returns exactly the points whose document satisfies it and ranks nothing; a vector leaf
 returns an exact nearest-neighbour answer with hybrid score `neg (fscale w distance)`; a text leaf an exact
 tf-idf answer with hybrid score `scale w score` -/
 def LeafRef (lower : Bytes → Bytes) (cv : Conv) (env : Env V T D S W) (orc : SOracle V T S) (rs : RState V T)
-    (le : S → S → Prop) : RLeaf V T W → Prop
+    (le : S → S → Prop) (schema : List (List String × C02.Kind)) (coll : C01.Coll) : RLeaf V T W → Prop
   | .filt l =>
     (evalRLeaf lower cv env orc rs (.filt l)).res = [] ∧
     ∀ u, (∃ n ∈ (evalRLeaf lower cv env orc rs (.filt l)).set, C01.AL.get rs.base.shard.pts.nI n = some u) ↔
-      specMatches lower cv rs.base.schema (C01.abs rs.base.shard) (.leaf l) u
+      specMatches lower cv schema coll (.leaf l) u
   | .flat path qv limit w f =>
     ∃ A : List (Nat × D),
       evalRLeaf lower cv env orc rs (.flat path qv limit w f) =
         ⟨A.map (·.1), A.map fun a => ⟨a.1, env.neg (env.fscale w a.2)⟩⟩ ∧
-      IsFlatAnswer lower cv env rs.base.schema (C01.abs rs.base.shard) path qv limit f
-        (A.map fun a => (uuidAt rs.base.shard.pts a.1, a.2))
+      IsFlatAnswer lower cv env schema coll path qv limit f (A.map fun a => (uuidAt rs.base.shard.pts a.1, a.2))
   | .text path terms all limit w f =>
     ∃ (set : List Nat) (A : List (Nat × S)),
       evalRLeaf lower cv env orc rs (.text path terms all limit w f) =
         ⟨set, A.map fun a => ⟨a.1, env.ops.scale w a.2⟩⟩ ∧
       (∀ n, n ∈ set ↔ n ∈ A.map (·.1)) ∧
-      IsTextAnswer lower cv env rs.base.schema (C01.abs rs.base.shard) path terms all limit f le
-        (A.map fun a => (uuidAt rs.base.shard.pts a.1, a.2))
+      IsTextAnswer lower cv env schema coll path terms all limit f le (A.map fun a => (uuidAt rs.base.shard.pts a.1, a.2))
+
+theorem leaf_ok_filt {lower : Bytes → Bytes} {cv : Conv} {env : Env V T D S W} {rs : RState V T}
+    (hR : RInv lower cv env rs) (orc : SOracle V T S) (le : S → S → Prop)
+    (l : C02.Leaf) (hwf' : l.wf (rs.base.view cv) = true) (hval : l.Valid) :
+    LeafRef lower cv env orc rs le rs.base.schema (C01.abs rs.base.shard) (.filt l : RLeaf V T W) ∧
+      LeafGood rs (evalRLeaf lower cv env orc rs (.filt l : RLeaf V T W)) := by
+  have hI := hR.base
+  have hspec : ∀ i, i ∈ C02.evalLeaf lower (rs.base.view cv) l ↔ (C02.Query.leaf l).sat lower (rs.base.view cv) i := by
+    intro i
+    rw [C02.evalLeaf_spec lower (view_inv hI) l hwf' hval i]
+    simp [C02.Query.sat]
+  have hqwf : (C02.Query.leaf l).wf (rs.base.view cv) = true := by rw [C02.Query.wf_leaf]; exact hwf'
+  have hset : ∀ n, n ∈ (evalRLeaf lower cv env orc rs (.filt l : RLeaf V T W)).set ↔
+      ∃ i : C02.Id, i.toNat = n ∧ (C02.Query.leaf l).sat lower (rs.base.view cv) i := by
+    intro n
+    simp only [evalRLeaf, List.mem_map]
+    constructor
+    · rintro ⟨i, hi, rfl⟩; exact ⟨i, rfl, (hspec i).1 hi⟩
+    · rintro ⟨i, rfl, hs⟩; exact ⟨i, (hspec i).2 hs, rfl⟩
+  refine ⟨⟨rfl, fun u => ?_⟩, ⟨by simp [evalRLeaf], by simp [evalRLeaf], ?_⟩⟩
+  · rw [specMatches_iff hI]
+    constructor
+    · rintro ⟨n, hn, hl⟩
+      obtain ⟨i, rfl, hs⟩ := (hset n).1 hn
+      exact ⟨i, hl, hs⟩
+    · rintro ⟨i, hl, hs⟩
+      exact ⟨i.toNat, (hset _).2 ⟨i, rfl, hs⟩, hl⟩
+  · intro n hn
+    obtain ⟨i, rfl, hs⟩ := (hset n).1 hn
+    exact live_of_sat hI _ hqwf i hs
+
+theorem leaf_ok_flat {lower : Bytes → Bytes} {cv : Conv} {env : Env V T D S W} {rs : RState V T}
+    (hR : RInv lower cv env rs) (orc : SOracle V T S) (le : S → S → Prop) (henum : ∀ l, (orc.enum l).Perm l)
+    (path : List String) (qv : V) (limit : Nat) (w : W) (f : Option C02.Query)
+    (hwf : (RLeaf.flat path qv limit w f : RLeaf V T W).wf rs cv = true) (hv : ∀ q, f = some q → q.Valid) :
+    LeafRef lower cv env orc rs le rs.base.schema (C01.abs rs.base.shard) (.flat path qv limit w f : RLeaf V T W) ∧
+      LeafGood rs (evalRLeaf lower cv env orc rs (.flat path qv limit w f : RLeaf V T W)) := by
+  simp only [RLeaf.wf, Bool.and_eq_true, decide_eq_true_eq] at hwf
+  obtain ⟨⟨h1, hlim⟩, hfw⟩ := hwf
+  cases hfx : rs.flat path with
+  | none => rw [hfx] at h1; cases h1
+  | some fx =>
+    obtain ⟨hnd, hlive, hans⟩ := flat_leaf_ref hR orc hfx qv limit f hfw hv (henum _)
+    have hev : evalRLeaf lower cv env orc rs (.flat path qv limit w f : RLeaf V T W) =
+        ⟨(flatSearch lower cv env orc rs fx qv limit f).map (·.id.toNat),
+         (flatSearch lower cv env orc rs fx qv limit f).map fun r => ⟨r.id.toNat, env.neg (env.fscale w r.d)⟩⟩ := by
+      simp only [evalRLeaf, hfx]
+    refine ⟨⟨(flatSearch lower cv env orc rs fx qv limit f).map fun r => (r.id.toNat, r.d), ?_, ?_⟩, ?_⟩
+    · rw [hev]; simp [List.map_map, Function.comp_def]
+    · simpa [List.map_map, Function.comp_def] using hans
+    · rw [hev]
+      refine ⟨?_, ?_, ?_⟩
+      · intro x hx
+        obtain ⟨r, hr, rfl⟩ := List.mem_map.1 hx
+        exact List.mem_map.2 ⟨r, hr, rfl⟩
+      · simpa [List.map_map, Function.comp_def] using hnd
+      · intro n hn
+        obtain ⟨r, hr, rfl⟩ := List.mem_map.1 hn
+        exact hlive r hr
+
+theorem leaf_ok_text {lower : Bytes → Bytes} {cv : Conv} {env : Env V T D S W} {rs : RState V T}
+    (hR : RInv lower cv env rs) (orc : SOracle V T S) (le : S → S → Prop)
+    (htperm : ∀ l, (orc.tsort l).Perm l) (htsorted : ∀ l, (orc.tsort l).Pairwise (fun a b => le b.score a.score))
+    (htord : ∀ id l, (orc.tord id l).Perm l)
+    (add_comm : ∀ a b, env.ops.add a b = env.ops.add b a)
+    (add_assoc : ∀ a b c, env.ops.add (env.ops.add a b) c = env.ops.add a (env.ops.add b c))
+    (path : List String) (terms : List T) (all : Bool) (limit : Nat) (w : W) (f : Option C02.Query)
+    (hwf : (RLeaf.text path terms all limit w f : RLeaf V T W).wf rs cv = true) (hv : ∀ q, f = some q → q.Valid) :
+    LeafRef lower cv env orc rs le rs.base.schema (C01.abs rs.base.shard) (.text path terms all limit w f : RLeaf V T W) ∧
+      LeafGood rs (evalRLeaf lower cv env orc rs (.text path terms all limit w f : RLeaf V T W)) ∧
+      (RLeaf.text path terms all limit w f : RLeaf V T W).noErr lower cv env orc rs = true := by
+  simp only [RLeaf.wf, Bool.and_eq_true] at hwf
+  obtain ⟨h1, hfw⟩ := hwf
+  cases htx : rs.text path with
+  | none => rw [htx] at h1; cases h1
+  | some tx =>
+    obtain ⟨set, res, hs, hset, hnd, hlive, hhyb, hans⟩ :=
+      text_leaf_ref hR orc le add_comm add_assoc htperm htsorted htord htx terms all limit w f hfw hv
+    have hev : evalRLeaf lower cv env orc rs (.text path terms all limit w f : RLeaf V T W) =
+        ⟨set, res.map fun r => ⟨r.id, r.hybrid⟩⟩ := by
+      simp only [evalRLeaf, htx, hs]
+    refine ⟨⟨set, res.map fun r => (r.id, r.score), ?_, ?_, ?_⟩, ?_, ?_⟩
+    · rw [hev]
+      congr 1
+      simp only [List.map_map, Function.comp_def]
+      apply List.map_congr_left
+      intro r hr
+      rw [hhyb r hr]
+    · intro n; rw [hset n]; simp [List.map_map, Function.comp_def]
+    · simpa [List.map_map, Function.comp_def] using hans
+    · rw [hev]
+      refine ⟨?_, ?_, ?_⟩
+      · intro x hx
+        obtain ⟨r, hr, rfl⟩ := List.mem_map.1 hx
+        exact (hset r.id).2 (List.mem_map.2 ⟨r, hr, rfl⟩)
+      · simpa [List.map_map, Function.comp_def] using hnd
+      · intro n hn
+        obtain ⟨r, hr, rfl⟩ := List.mem_map.1 ((hset n).1 hn)
+        exact hlive r hr
+    · simp only [RLeaf.noErr, htx, hs]; rfl
 
 theorem leaf_ok {lower : Bytes → Bytes} {cv : Conv} {env : Env V T D S W} {rs : RState V T}
     (hR : RInv lower cv env rs) (orc : SOracle V T S) (le : S → S → Prop) (sortOpts : List C06.SortOpt)
@@ -1289,89 +1429,17 @@ theorem leaf_ok {lower : Bytes → Bytes} {cv : Conv} {env : Env V T D S W} {rs 
     (add_comm : ∀ a b, env.ops.add a b = env.ops.add b a)
     (add_assoc : ∀ a b c, env.ops.add (env.ops.add a b) c = env.ops.add a (env.ops.add b c))
     (l : RLeaf V T W) (hwf : l.wf rs cv = true) (hv : l.Valid) :
-    LeafRef lower cv env orc rs le l ∧ LeafGood rs (evalRLeaf lower cv env orc rs l) ∧
+    LeafRef lower cv env orc rs le rs.base.schema (C01.abs rs.base.shard) l ∧ LeafGood rs (evalRLeaf lower cv env orc rs l) ∧
       l.noErr lower cv env orc rs = true := by
-  have hI := hR.base
   cases l with
   | filt l =>
-    have hwf' : l.wf (rs.base.view cv) = true := hwf
-    have hval : l.Valid := hv
-    have hspec : ∀ i, i ∈ C02.evalLeaf lower (rs.base.view cv) l ↔ (C02.Query.leaf l).sat lower (rs.base.view cv) i := by
-      intro i
-      rw [C02.evalLeaf_spec lower (view_inv hI) l hwf' hval i]
-      simp [C02.Query.sat]
-    have hqwf : (C02.Query.leaf l).wf (rs.base.view cv) = true := by rw [C02.Query.wf_leaf]; exact hwf'
-    have hset : ∀ n, n ∈ (evalRLeaf lower cv env orc rs (.filt l)).set ↔
-        ∃ i : C02.Id, i.toNat = n ∧ (C02.Query.leaf l).sat lower (rs.base.view cv) i := by
-      intro n
-      simp only [evalRLeaf, List.mem_map]
-      constructor
-      · rintro ⟨i, hi, rfl⟩; exact ⟨i, rfl, (hspec i).1 hi⟩
-      · rintro ⟨i, rfl, hs⟩; exact ⟨i, (hspec i).2 hs, rfl⟩
-    refine ⟨⟨rfl, fun u => ?_⟩, ⟨by simp [evalRLeaf], by simp [evalRLeaf], ?_⟩, rfl⟩
-    · rw [specMatches_iff hI]
-      constructor
-      · rintro ⟨n, hn, hl⟩
-        obtain ⟨i, rfl, hs⟩ := (hset n).1 hn
-        exact ⟨i, hl, hs⟩
-      · rintro ⟨i, hl, hs⟩
-        exact ⟨i.toNat, (hset _).2 ⟨i, rfl, hs⟩, hl⟩
-    · intro n hn
-      obtain ⟨i, rfl, hs⟩ := (hset n).1 hn
-      exact live_of_sat hI _ hqwf i hs
+    obtain ⟨a, b⟩ := leaf_ok_filt hR orc le l hwf hv
+    exact ⟨a, b, rfl⟩
   | flat path qv limit w f =>
-    simp only [RLeaf.wf, Bool.and_eq_true, decide_eq_true_eq] at hwf
-    obtain ⟨⟨h1, hlim⟩, hfw⟩ := hwf
-    cases hfx : rs.flat path with
-    | none => rw [hfx] at h1; cases h1
-    | some fx =>
-      obtain ⟨hnd, hlive, hans⟩ := flat_leaf_ref hR orc hfx qv limit f hfw hv (hok.enum_perm _)
-      have hev : evalRLeaf lower cv env orc rs (.flat path qv limit w f) =
-          ⟨(flatSearch lower cv env orc rs fx qv limit f).map (·.id.toNat),
-           (flatSearch lower cv env orc rs fx qv limit f).map fun r => ⟨r.id.toNat, env.neg (env.fscale w r.d)⟩⟩ := by
-        simp only [evalRLeaf, hfx]
-      refine ⟨⟨(flatSearch lower cv env orc rs fx qv limit f).map fun r => (r.id.toNat, r.d), ?_, ?_⟩, ?_, rfl⟩
-      · rw [hev]; simp [List.map_map, Function.comp_def]
-      · simpa [List.map_map, Function.comp_def] using hans
-      · rw [hev]
-        refine ⟨?_, ?_, ?_⟩
-        · intro x hx
-          obtain ⟨r, hr, rfl⟩ := List.mem_map.1 hx
-          exact List.mem_map.2 ⟨r, hr, rfl⟩
-        · simpa [List.map_map, Function.comp_def] using hnd
-        · intro n hn
-          obtain ⟨r, hr, rfl⟩ := List.mem_map.1 hn
-          exact hlive r hr
+    obtain ⟨a, b⟩ := leaf_ok_flat hR orc le hok.enum_perm path qv limit w f hwf hv
+    exact ⟨a, b, rfl⟩
   | text path terms all limit w f =>
-    simp only [RLeaf.wf, Bool.and_eq_true] at hwf
-    obtain ⟨h1, hfw⟩ := hwf
-    cases htx : rs.text path with
-    | none => rw [htx] at h1; cases h1
-    | some tx =>
-      obtain ⟨set, res, hs, hset, hnd, hlive, hhyb, hans⟩ :=
-        text_leaf_ref hR orc le add_comm add_assoc hok.tsort_perm hok.tsort_sorted hok.tord_perm htx terms all limit w f hfw hv
-      have hev : evalRLeaf lower cv env orc rs (.text path terms all limit w f) =
-          ⟨set, res.map fun r => ⟨r.id, r.hybrid⟩⟩ := by
-        simp only [evalRLeaf, htx, hs]
-      refine ⟨⟨set, res.map fun r => (r.id, r.score), ?_, ?_, ?_⟩, ?_, ?_⟩
-      · rw [hev]
-        congr 1
-        simp only [List.map_map, Function.comp_def]
-        apply List.map_congr_left
-        intro r hr
-        rw [hhyb r hr]
-      · intro n; rw [hset n]; simp [List.map_map, Function.comp_def]
-      · simpa [List.map_map, Function.comp_def] using hans
-      · rw [hev]
-        refine ⟨?_, ?_, ?_⟩
-        · intro x hx
-          obtain ⟨r, hr, rfl⟩ := List.mem_map.1 hx
-          exact (hset r.id).2 (List.mem_map.2 ⟨r, hr, rfl⟩)
-        · simpa [List.map_map, Function.comp_def] using hnd
-        · intro n hn
-          obtain ⟨r, hr, rfl⟩ := List.mem_map.1 ((hset n).1 hn)
-          exact hlive r hr
-      · simp only [RLeaf.noErr, htx, hs]; rfl
+    exact leaf_ok_text hR orc le hok.tsort_perm hok.tsort_sorted hok.tord_perm add_comm add_assoc path terms all limit w f hwf hv
 
 /-- every leaf of a well-formed valid query is answered by its index with a reference answer, and the tree
 is fit for the answer pipeline -/
@@ -1381,11 +1449,11 @@ theorem leaves_ok {lower : Bytes → Bytes} {cv : Conv} {env : Env V T D S W} {r
     (add_comm : ∀ a b, env.ops.add a b = env.ops.add b a)
     (add_assoc : ∀ a b c, env.ops.add (env.ops.add a b) c = env.ops.add a (env.ops.add b c))
     (q : RQuery V T W) (hwf : q.wf rs cv = true) (hv : q.Valid) :
-    q.allLeaves (LeafRef lower cv env orc rs le) ∧
+    q.allLeaves (LeafRef lower cv env orc rs le rs.base.schema (C01.abs rs.base.shard)) ∧
     q.allLeaves (fun l => LeafGood rs (evalRLeaf lower cv env orc rs l)) ∧
     q.noErr lower cv env orc rs = true := by
   have h0 := allLeaves_and q (allLeaves_of_wf rs cv q hwf) hv
-  have h1 := allLeaves_imp (Q := fun l => LeafRef lower cv env orc rs le l ∧ LeafGood rs (evalRLeaf lower cv env orc rs l) ∧
+  have h1 := allLeaves_imp (Q := fun l => LeafRef lower cv env orc rs le rs.base.schema (C01.abs rs.base.shard) l ∧ LeafGood rs (evalRLeaf lower cv env orc rs l) ∧
       l.noErr lower cv env orc rs = true)
     (fun l h => leaf_ok hR orc le sortOpts hok add_comm add_assoc l h.1 h.2) q h0
   exact ⟨allLeaves_imp (fun l h => h.1) q h1, allLeaves_imp (fun l h => h.2.1) q h1,
